@@ -82,7 +82,7 @@ def run(c):
     with open(progs, "w") as f:
         for t in texts:
             f.write(json.dumps({"text": t, "origin": "mutation"}) + "\n")
-        for kind, count, *extra in [("perturb", 300 if q else 4000), ("punch", 200 if q else 3000), ("deforder", 200 if q else 3000), ("corpus", 0)]:
+        for kind, count, *extra in [("tokmut", 0), ("perturb", 300 if q else 4000), ("punch", 200 if q else 3000), ("deforder", 200 if q else 3000), ("corpus", 0)]:
             f.write(vf.gv(["gen-programs", kind, c.seed, count] + list(extra)).stdout)
     # the same programs laid out over several lines with wide (multi-byte) whitespace as indentation: diagnostics that span
     # lines, continuation lines that begin with a 2- or 3-byte blank
